@@ -8,6 +8,7 @@ import (
 	"hash/fnv"
 	"math"
 	"reflect"
+	"runtime"
 	"strconv"
 
 	"gorgonia.org/tensor"
@@ -134,6 +135,10 @@ func ToTensor(t *ref.T) tensor.Tensor {
 		return nil
 	}
 	b := backing(t)
+	// gorgonia reads the address of the backing slice into a uintptr before it stores
+	// the slice (storage.AsByteSlice): the backing must stay reachable from here until
+	// the tensor exists (see the recorded finding GCFindingSignature).
+	defer runtime.KeepAlive(b)
 	if len(t.Shape) == 0 {
 		return tensor.New(tensor.FromScalar(reflect.ValueOf(b).Index(0).Interface()))
 	}
@@ -232,6 +237,7 @@ func FromTensor(t tensor.Tensor) (*ref.T, error) {
 	if t == nil {
 		return nil, nil
 	}
+	defer runtime.KeepAlive(t) // Data() holds the memory through a uintptr for a moment
 	dt, ok := RefDtype(t.Dtype())
 	if !ok {
 		return nil, fmt.Errorf("unsupported dtype %v", t.Dtype())
